@@ -2,18 +2,21 @@
 
     Layer below the cache ([handle_cache_helpers::get_response] + [handle_request], src/lib.rs;
     [Extensions::resolve_present], src/extensions.rs; [kvarn_extensions::{ip_allow, hide, cache,
-    download, mount_all}], extensions/src/lib.rs) for a host that serves files only
-    ([Extensions::empty()] + [mount_all]): raw URI path -> percent-decoded path -> file read ->
-    Present extensions selected by the decoded path's file extension ([present_file]: "private" ->
-    hide) and by the [!> ] line of the file ([present_internal]) -> [FatResponse].  On top of it the
-    response cache of Model/Cache.v ([serve]): hits never re-run Present extensions.
+    download, templates, mount_all}], extensions/src/lib.rs; [error::default], src/error.rs) for a host that
+    serves files ([Extensions::empty()] or [Extensions::new()] + [mount_all]): raw URI path -> percent-decoded
+    path -> file read -> Present extensions selected by the decoded path's file extension ([present_file]:
+    "private" -> hide) and by the [!> ] line of the file ([present_internal]) -> [FatResponse].  On top of it
+    the response cache in full (Model/CacheX.v [serveX]: lookup under the override URI, admission of new items
+    and of pushed variants, 304 only for a stored variant, [clear_page] with the redirect target): hits never
+    re-run Present extensions.
 
-    Two switches select the code before the two repairs of this property (only used for the
-    [..._refuted] witnesses):  [fix_ext = false]: the file extension is taken from the RAW path;
-    [fix_lock = false]: a [cache] directive after [allow-ips] overrides the server preference.
+    Switches select the code before the repairs of this property (only used for the [..._refuted]
+    witnesses):  [fix_ext = false]: the file extension is taken from the RAW path; [fix_lock = false]: a
+    [cache] directive after [allow-ips] overrides the server preference; [fix_errline = false]: the error page
+    that replaces a guarded file keeps the [!> ] line of [errors/404.html].
     Definitions only; proofs live in Proofs/GuardsProofs.v. *)
-From KV Require Export Bytes RustInt Range CacheControl Cache Fixture.
-From KV Require PathSan PresentLine.
+From KV Require Export Bytes RustInt Range CacheControl Cache Fixture CacheX.
+From KV Require PathSan PresentLine Templates.
 Open Scope N_scope.
 
 (** ---------------------------------------------------------------------------
@@ -49,6 +52,7 @@ Definition N_HIDE : bytes := Eval vm_compute in B "hide".
 Definition N_ALLOW : bytes := Eval vm_compute in B "allow-ips".
 Definition N_CACHE : bytes := Eval vm_compute in B "cache".
 Definition N_DOWNLOAD : bytes := Eval vm_compute in B "download".
+Definition N_TMPL : bytes := Eval vm_compute in B "tmpl".
 
 (** the path whose extension selects the [present_file] extension in [resolve_present]:
     repaired code: [parse::uri(&utils::percent_decode(request.uri().path()))];
@@ -62,15 +66,17 @@ Definition private_hit (fix_ext : bool) (raw : bytes) : bool :=
   end.
 
 (** ---------------------------------------------------------------------------
-    [<IpAddr as FromStr>::from_str] as far as it can equal an IPv4 client address:
-    [core::net::parser::read_ipv4_addr] — four groups of 1..3 decimal digits separated by '.',
-    no leading zero in a group of more than one digit, each at most 255, nothing after.
-    (A text that only parses as IPv6 never equals a V4 address.) *)
+    [<IpAddr as FromStr>::from_str] ([core::net::parser], Rust 1.95): [read_ipv4_addr] — four groups of
+    1..3 decimal digits separated by '.', no leading zero in a group of more than one digit, each at
+    most 255 — else [read_ipv6_addr] — up to eight groups of 1..4 hex digits separated by ':', at most
+    one "::" standing for one or more zero groups, an embedded IPv4 address as the last 32 bits (not
+    before "::") —; in either case nothing may follow.  Parsers return the value and the rest. *)
 Fixpoint take_digits (s : bytes) (acc : bytes) : bytes * bytes :=
   match s with
   | c :: r => if is_digit c then take_digits r (c :: acc) else (rev acc, s)
   | [] => (rev acc, [])
   end.
+(** [read_number(10, Some(3), false)] into a [u8] *)
 Definition read_octet (s : bytes) : option (N * bytes) :=
   let '(ds, rest) := take_digits s [] in
   match ds with
@@ -84,7 +90,7 @@ Definition read_octet (s : bytes) : option (N * bytes) :=
 Definition expect_dot (s : bytes) : option bytes :=
   match s with c :: r => if c =? 46 then Some r else None | [] => None end.
 Definition quad := (N * N * N * N)%type.
-Definition parse_ipv4 (s : bytes) : option quad :=
+Definition read_ipv4 (s : bytes) : option (quad * bytes) :=
   match read_octet s with
   | Some (a, s1) =>
     match expect_dot s1 with
@@ -98,8 +104,8 @@ Definition parse_ipv4 (s : bytes) : option quad :=
             match expect_dot s5 with
             | Some s6 =>
               match read_octet s6 with
-              | Some (d, []) => Some (a, b, c, d)
-              | _ => None
+              | Some (d, rest) => Some ((a, b, c, d), rest)
+              | None => None
               end
             | None => None
             end
@@ -117,11 +123,100 @@ Definition quad_eqb (x y : quad) : bool :=
   let '(a, b, c, d) := x in let '(a', b', c', d') := y in
   (a =? a') && (b =? b') && (c =? c') && (d =? d').
 
-(** client address number [n] of a scenario = 10.0.(n/256 mod 256).(n mod 256) (c00pipe.rs [sockaddr]) *)
+Definition is_hex (c : N) : bool := match PathSan.hex_val c with Some _ => true | None => false end.
+Definition hex_of (c : N) : N := match PathSan.hex_val c with Some v => v | None => 0 end.
+Fixpoint take_hex (s : bytes) (acc : bytes) : bytes * bytes :=
+  match s with
+  | c :: r => if is_hex c then take_hex r (c :: acc) else (rev acc, s)
+  | [] => (rev acc, [])
+  end.
+(** [read_number(16, Some(4), true)] into a [u16] *)
+Definition read_hex4 (s : bytes) : option (N * bytes) :=
+  let '(ds, rest) := take_hex s [] in
+  match ds with
+  | [] => None
+  | _ => if Nat.ltb 4 (length ds) then None
+         else Some (fold_left (fun a c => a * 16 + hex_of c) ds 0, rest)
+  end.
+(** [read_separator(':', i, inner)]: from the second group on a ':' comes first *)
+Definition sep_colon (i : nat) (s : bytes) : option bytes :=
+  match i with
+  | O => Some s
+  | S _ => match s with c :: r => if c =? 58 then Some r else None | [] => None end
+  end.
+(** [read_groups(p, &mut groups[..limit])] from index [i] on ([fuel] = groups still to fill):
+    the groups read, whether an embedded IPv4 address ended them, the rest *)
+Fixpoint read_groups (fuel limit i : nat) (s : bytes) : list N * bool * bytes :=
+  match fuel with
+  | O => ([], false, s)
+  | S fuel' =>
+      let v4 := if Nat.ltb i (limit - 1)
+                then match sep_colon i s with Some s1 => read_ipv4 s1 | None => None end
+                else None in
+      match v4 with
+      | Some ((a, b, c, d), rest) => ([a * 256 + b; c * 256 + d], true, rest)
+      | None =>
+          match (match sep_colon i s with Some s1 => read_hex4 s1 | None => None end) with
+          | Some (g, rest) => let '(gs, v, r) := read_groups fuel' limit (S i) rest in (g :: gs, v, r)
+          | None => ([], false, s)
+          end
+      end
+  end.
+Definition read_ipv6 (s : bytes) : option (list N * bytes) :=
+  let '(head, head_v4, r1) := read_groups 8 8 0 s in
+  if Nat.eqb (length head) 8 then Some (head, r1)
+  else if head_v4 then None
+  else match r1 with
+       | c1 :: c2 :: r2 =>
+           if (c1 =? 58) && (c2 =? 58) then
+             let limit := (8 - (length head + 1))%nat in
+             let '(tail, _, r3) := read_groups limit limit 0 r2 in
+             Some (head ++ repeat 0 (8 - length head - length tail) ++ tail, r3)
+           else None
+       | _ => None
+       end.
+
+Inductive ip := IPv4 (q : quad) | IPv6 (g : list N).
+(** [Parser::parse_with(|p| p.read_ip_addr())]: IPv4 first; if that read an address, IPv6 is not tried *)
+Definition parse_ip (s : bytes) : option ip :=
+  match read_ipv4 s with
+  | Some (q, rest) => match rest with [] => Some (IPv4 q) | _ => None end
+  | None => match read_ipv6 s with
+            | Some (g, []) => Some (IPv6 g)
+            | _ => None
+            end
+  end.
+Fixpoint groups_eqb (a c : list N) : bool :=
+  match a, c with
+  | [], [] => true
+  | x :: a', y :: c' => (x =? y) && groups_eqb a' c'
+  | _, _ => false
+  end.
+(** [IpAddr == IpAddr]: an IPv4 address never equals an IPv6 one (not even its mapped form) *)
+Definition ip_eqb (a c : ip) : bool :=
+  match a, c with
+  | IPv4 x, IPv4 y => quad_eqb x y
+  | IPv6 x, IPv6 y => groups_eqb x y
+  | _, _ => false
+  end.
+
+(** the client address [rq_addr] of a request, as a number:
+      n < 65536                    10.0.(n/256).(n mod 256)           (c00pipe.rs [sockaddr])
+      65536 <= n < 65536 + 2^32    the IPv4 address with the 32-bit value n - 65536
+      otherwise                    the IPv6 address with the 128-bit value n - 65536 - 2^32 (mod 2^128) *)
+Definition V4_BASE : N := 65536.
+Definition V6_BASE : N := 65536 + 4294967296.
 Definition quad_of_addr (n : N) : quad := (10, 0, (n / 256) mod 256, n mod 256).
+Definition quad_of_u32 (v : N) : quad := ((v / 16777216) mod 256, (v / 65536) mod 256, (v / 256) mod 256, v mod 256).
+Definition groups_of_u128 (v : N) : list N :=
+  map (fun k => (v / 2 ^ (16 * (7 - N.of_nat k))) mod 65536) (seq 0 8).
+Definition ip_of_addr (n : N) : ip :=
+  if n <? V4_BASE then IPv4 (quad_of_addr n)
+  else if n <? V6_BASE then IPv4 (quad_of_u32 (n - V4_BASE))
+  else IPv6 (groups_of_u128 (n - V6_BASE)).
 (** [denied.parse::<IpAddr>()] is [Ok(ip)] with [data.address.ip() == ip] *)
 Definition arg_matches (addr : N) (arg : bytes) : bool :=
-  match parse_ipv4 arg with Some q => quad_eqb q (quad_of_addr addr) | None => false end.
+  match parse_ip arg with Some a => ip_eqb a (ip_of_addr addr) | None => false end.
 
 (** ---------------------------------------------------------------------------
     [ClientCachePreference], its [FromStr] and [as_header]; [ServerCachePreference::from_str]. *)
@@ -216,25 +311,53 @@ Fixpoint set_header (k v : bytes) (hs : list (bytes * bytes)) : list (bytes * by
   end.
 
 Section Guards.
-  Variable fix_ext fix_lock : bool.
-  (** [read_file(<host.path>/<public>/<t>)] for the decoded path [t] (leading '/' stripped);
-      the file system does not change during a history (the file cache is then transparent) *)
+  Variable fix_ext fix_lock fix_errline : bool.
+  (** the host was made with [Extensions::new()]: the Prepare extension bound to "/./cors_fail" exists *)
+  Variable cors : bool.
+  (** [read_file(<host.path>/<public>/<t>)] for the decoded path [t] (leading '/' stripped); what the server
+      holds for a path does not change during a history (see Section FileCache below for the file cache) *)
   Variable fs : bytes -> option bytes.
   (** body of [error::default(status, host)]: [<host.path>/errors/<status>.html] or the hard-coded page *)
   Variable errpage : N -> bytes.
+  (** [templates::handle_template] with the template files named by the arguments: body -> body *)
+  Variable tmpl : list bytes -> bytes -> bytes.
+
+  (** [PresentExtensions::new] of a body (total: Proofs/PresentLineProofs.v [present_parse_total]) *)
+  Definition line_of (c : bytes) : option PresentLine.parsed :=
+    match PresentLine.present_parse c with Ok r => r | _ => None end.
+  Definition first_tmpl (es : list PresentLine.entry) : option (list bytes) :=
+    option_map snd (find (fun e => beq (fst e) N_TMPL) es).
+
+  (** the body of the 404 response that [ip_allow] puts in place: [default_error(404)], after the repair
+      without the page's own [!> ] line *)
+  Definition error_body_allow (code : N) : bytes :=
+    match line_of (errpage code) with
+    | Some p => if fix_errline then PresentLine.p_body p else errpage code
+    | None => errpage code
+    end.
+  (** ... and [hide]: an error page that is a [!> tmpl] template is rendered *)
+  Definition error_body_hide (code : N) : bytes :=
+    match line_of (errpage code) with
+    | Some p =>
+        match first_tmpl (PresentLine.p_entries p) with
+        | Some args => tmpl args (PresentLine.p_body p)
+        | None => if fix_errline then PresentLine.p_body p else errpage code
+        end
+    | None => errpage code
+    end.
 
   (** [*data.response = default_error(code).map(Into::into)]: a new response (its extensions are empty) *)
-  Definition to_error (st : pst) (code : N) : pst :=
-    mkP code err_headers (errpage code) (ps_spref st) (ps_cpref st) false.
+  Definition to_error (st : pst) (code : N) (body : bytes) : pst :=
+    mkP code err_headers body (ps_spref st) (ps_cpref st) false.
 
-  (** [kvarn_extensions::hide] (the 404 page is not a [!> tmpl] template) *)
-  Definition do_hide (st : pst) : pst := to_error st 404.
+  (** [kvarn_extensions::hide] *)
+  Definition do_hide (st : pst) : pst := to_error st 404 (error_body_hide 404).
 
   (** [kvarn_extensions::ip_allow] *)
   Definition do_allow (addr : N) (args : list bytes) (st : pst) : pst :=
     let matched := existsb (arg_matches addr) args in
     let st1 := mkP (ps_status st) (ps_headers st) (ps_body st) SP_NONE CChanging (ps_locked st) in
-    let st2 := if matched then st1 else to_error st1 404 in
+    let st2 := if matched then st1 else to_error st1 404 (error_body_allow 404) in
     mkP (ps_status st2) (ps_headers st2) (ps_body st2) (ps_spref st2) (ps_cpref st2) true.
 
   (** [kvarn_extensions::cache] *)
@@ -251,6 +374,10 @@ Section Guards.
     mkP (ps_status st) (set_header (B "content-type") (B "application/octet-stream") (ps_headers st))
         (ps_body st) (ps_spref st) (ps_cpref st) (ps_locked st).
 
+  (** [kvarn_extensions::templates] *)
+  Definition do_tmpl (args : list bytes) (st : pst) : pst :=
+    mkP (ps_status st) (ps_headers st) (tmpl args (ps_body st)) (ps_spref st) (ps_cpref st) (ps_locked st).
+
   (** one [present_internal] extension of the line; names that are not mounted do nothing *)
   Definition step (addr : N) (st : pst) (e : PresentLine.entry) : pst :=
     let '(name, args) := e in
@@ -258,28 +385,28 @@ Section Guards.
     else if beq name N_ALLOW then do_allow addr args st
     else if beq name N_CACHE then do_cache args st
     else if beq name N_DOWNLOAD then do_download st
+    else if beq name N_TMPL then do_tmpl args st
     else st.
 
   (** [resolve_present]: parse the line of the body, cut it off, the file-extension extension, then
       the line's extensions in order *)
-  Definition present (r : request) (st : pst) : outcome pst :=
-    match PresentLine.present_parse (ps_body st) with
-    | Panic => Panic
-    | Err e => Err e
-    | Ok parsed =>
-        let st0 := match parsed with
-                   | Some p => mkP (ps_status st) (ps_headers st) (PresentLine.p_body p) (ps_spref st) (ps_cpref st) (ps_locked st)
-                   | None => st
-                   end in
-        let st1 := if private_hit fix_ext (rq_path r) then do_hide st0 else st0 in
-        Ok (fold_left (step (rq_addr r)) (match parsed with Some p => PresentLine.p_entries p | None => [] end) st1)
-    end.
+  Definition present (r : request) (st : pst) : pst :=
+    let parsed := line_of (ps_body st) in
+    let st0 := match parsed with
+               | Some p => mkP (ps_status st) (ps_headers st) (PresentLine.p_body p) (ps_spref st) (ps_cpref st) (ps_locked st)
+               | None => st
+               end in
+    let st1 := if private_hit fix_ext (rq_path r) then do_hide st0 else st0 in
+    fold_left (step (rq_addr r)) (match parsed with Some p => PresentLine.p_entries p | None => [] end) st1.
 
   (** [sanitize_error_into_response] = [error::default_response]: server preference None, client Full;
       [handle_request] keeps only the [.response] of [default_response] and wraps it in
       [FatResponse::cache]: server Full, client Full *)
   Definition err_pst (code : N) (spref : N) : pst := mkP code err_headers (errpage code) spref CFull false.
   Definition file_pst (c : bytes) : pst := mkP 200 [] c SP_FULL CFull false.
+  (** the answer of the Prepare extension that [Extensions::new] binds to "/./cors_fail" (server cache
+      preference None since kvarn d00feae) *)
+  Definition cors_pst : pst := mkP 403 [] (B "CORS request denied") SP_NONE CFull false.
 
   (** the decoded path a file is read from ([get_response]) *)
   Definition served_file (raw : bytes) : outcome (option bytes) :=
@@ -291,18 +418,22 @@ Section Guards.
                 end
     end.
 
-  (** [get_response] up to [resolve_present]: sanitize error page, or [handle_request] without
-      Prepare extensions *)
-  Definition base (r : request) (ok : bool) : outcome pst :=
+  Definition is_cors_fail (ov : option (bytes * option bytes)) : bool :=
+    match ov with Some (p, _) => beq p CORS_FAIL | None => false end.
+
+  (** [get_response] up to [resolve_present]: sanitize error page, or [handle_request]: the Prepare
+      extension bound to the override URI, else the file named by the REQUEST's path *)
+  Definition base (r : request) (ov : option (bytes * option bytes)) (ok : bool) : outcome pst :=
     if negb ok then
       Ok (err_pst (match PathSan.sanitize_path (rq_path r) with Ok _ => 416 | _ => 400 end) SP_NONE)
     else
       match served_file (rq_path r) with
       | Panic => Panic
       | Err e => Err e
-      | Ok None => Ok (err_pst 404 SP_FULL)
+      | Ok None => if cors && is_cors_fail ov then Ok cors_pst else Ok (err_pst 404 SP_FULL)
       | Ok (Some t) =>
-          if get_or_head (rq_method r) then
+          if cors && is_cors_fail ov then Ok cors_pst
+          else if get_or_head (rq_method r) then
             match fs t with
             | Some c => Ok (file_pst c)
             | None => Ok (err_pst 404 SP_FULL)
@@ -317,14 +448,14 @@ Section Guards.
   Definition panic_fat : fat :=
     {| f_status := 0; f_headers := []; f_body := []; f_spref := SP_NONE; f_compress := false |}.
 
-  Definition layer_b (r : request) (ok : bool) : fat :=
-    match obind (base r ok) (present r) with
-    | Ok st => fat_of st
+  Definition layer_b (r : request) (ov : option (bytes * option bytes)) (ok : bool) : fat :=
+    match base r ov ok with
+    | Ok st => fat_of (present r st)
     | _ => panic_fat
     end.
 
-  Definition compute_g (hs : unit) (r : request) (ok : bool) : fat * unit * list bytes :=
-    (layer_b r ok, hs, []).
+  Definition compute_g (hs : unit) (r : request) (ov : option (bytes * option bytes)) (ok : bool)
+    : fatx * unit * list bytes := (plain (layer_b r ov ok), hs, []).
 
   Definition sanitize_ok_g (r : request) : bool :=
     match PathSan.sanitize_path (rq_path r) with
@@ -332,20 +463,25 @@ Section Guards.
     | _ => false
     end.
 
-  (** [clone_preferred] may refuse (406): the body is then the 406 error page *)
-  Definition negotiate_g (refuses : request -> fat -> bool) (r : request) (f : fat) : option (N * bytes) :=
-    if refuses r f then Some (406, errpage 406) else None.
+  (** [clone_preferred] may refuse (406): the body is then the 406 error page as [error::default] gives it *)
+  Definition negotiate_g (refuses : request -> fatx -> bool) (r : request) (x : fatx) : option (N * bytes) :=
+    if refuses r x then Some (406, errpage 406) else None.
 
-  (** the whole server: Model/Cache.v [run] above [compute_g]. [prime]: the URI rewriting of the
-      non-internal Prime extensions (identity for [Extensions::empty()] + [mount_all]; "Expand . and /"
-      for [Extensions::new()] + [mount_all]); sanitize looks at the request before, everything else
-      at the request after the rewriting *)
-  Definition run_g (cache_on ims_on : bool) (parse_ims : bytes -> option Z) (prime : request -> request)
-      (refuses : request -> fat -> bool) (vary_tuple : request -> tuple)
-      (vary_header : request -> fat -> list (bytes * bytes))
-      (c : cache) (now : N) (ops : list op) : list obs :=
-    run unit compute_g cache_on ims_on parse_ims sanitize_ok_g prime
-        (negotiate_g refuses) vary_tuple vary_header (c, tt) now ops.
+  (** the whole server: Model/CacheX.v [runX] (the repaired [handle_vary_missing]; the other repairs of the
+      cache layer are parameters) above [compute_g].  [prime]: the URI rewriting of the non-internal Prime
+      extensions (identity for [Extensions::empty()] + [mount_all]; "Expand . and /" for [Extensions::new()] +
+      [mount_all]); [override]: the internal URI a Prime extension answers with (the CORS denial of
+      [Extensions::new()]); sanitize looks at the request before, everything else at the request after the
+      rewriting *)
+  Definition run_g (cache_on ims_on fix_ovkey fix_clear fix_svary fix_qmkey fix_ims : bool) (sfilter : N -> bool)
+      (parse_ims : bytes -> option Z) (prime : request -> request)
+      (override : request -> option (bytes * option bytes))
+      (refuses : request -> fatx -> bool) (vary_tuple : request -> option (bytes * option bytes) -> tuple)
+      (vary_header : request -> option (bytes * option bytes) -> fatx -> list (bytes * bytes))
+      (clear_alias : request -> option request)
+      (c : cachex) (now : N) (ops : list opx) : list obsx :=
+    runX unit compute_g cache_on ims_on true fix_ovkey fix_clear fix_svary fix_qmkey fix_ims sfilter parse_ims
+         sanitize_ok_g prime override (negotiate_g refuses) vary_tuple vary_header clear_alias (c, tt) now ops.
 End Guards.
 
 (** ---------------------------------------------------------------------------
@@ -382,13 +518,13 @@ Definition permitted_b (fs : bytes -> option bytes) (r : request) : bool :=
   | _ => false
   end.
 
-Definition leaks (secret : bytes) (rp : reply) : bool :=
-  contains_sub secret (rp_body rp) || contains_sub secret (rp_identity rp).
+Definition leaks (secret : bytes) (rp : replyx) : bool :=
+  contains_sub secret (rx_body rp) || contains_sub secret (rx_identity rp).
 
 (** what the property demands of one observation of a history *)
-Definition reply_ok (fs : bytes -> option bytes) (secret : bytes) (prime : request -> request) (o : op) (ob : obs) : Prop :=
+Definition reply_ok (fs : bytes -> option bytes) (secret : bytes) (prime : request -> request) (o : opx) (ob : obsx) : Prop :=
   match o, ob with
-  | OReq r, ObReply rp _ => leaks secret rp = true -> permitted fs (prime r)
+  | XReq r, XbReply rp _ => leaks secret rp = true -> permitted fs (prime r)
   | _, _ => True
   end.
 
@@ -420,7 +556,8 @@ Fixpoint mask_ok (mask : list (option (bool * bool))) (d : bytes) : bool :=
 
 (** ---------------------------------------------------------------------------
     The fixture: files of a scenario as a tree (PathSan's resolution: ENOTDIR, empty and "."
-    components, ".."), the hard-coded error page, the scenario decoder.  Component ["guards.run"]. *)
+    components, ".."), error pages [errors/<code>.html] (else the hard-coded page, written [ERRPAGE:<code>]),
+    template files [templates/<arg>] (Model/Templates.v), the scenario decoder.  Component ["guards.run"]. *)
 Fixpoint tree_insert (segs : list bytes) (content : bytes) (n : PathSan.node) : PathSan.node :=
   match segs with
   | [] => PathSan.File content
@@ -432,65 +569,187 @@ Fixpoint tree_insert (segs : list bytes) (content : bytes) (n : PathSan.node) : 
 Definition tree_of (files : list (bytes * bytes)) : PathSan.node :=
   fold_left (fun n '(name, content) => tree_insert (PathSan.split_on 47 name) content n) files (PathSan.Dir []).
 Definition PUBLIC_SLASH : bytes := Eval vm_compute in B "public/".
-Definition fs_of_tree (tree : PathSan.node) (t : bytes) : option bytes :=
-  PathSan.read_path (tree, []) (tree, []) (PUBLIC_SLASH ++ t).
+Definition ERRORS_SLASH : bytes := Eval vm_compute in B "errors/".
+Definition TEMPLATES_SLASH : bytes := Eval vm_compute in B "templates/".
+Definition tree_read (tree : PathSan.node) (p : bytes) : option bytes :=
+  PathSan.read_path (tree, []) (tree, []) p.
 
-Definition errpage_fix (code : N) : bytes := ERRPAGE.
+(** what the server reads, over a reader [rd] of paths relative to the host directory:
+    [read_file(make_path(host.path, "public", t))], [error::default]: [make_path(host.path, "errors", code, Some("html"))]
+    or the hard-coded page (written [ERRPAGE:<code>]), and [templates::Cache::resolve_template]: the files
+    [make_path(host.path, "templates", arg, None)] named by the arguments, last argument first; the first one that can be
+    read and defines the name *)
+Definition fs_of (rd : bytes -> option bytes) (t : bytes) : option bytes := rd (PUBLIC_SLASH ++ t).
+Definition ERRPAGE_COLON : bytes := Eval vm_compute in B "ERRPAGE:".
+Definition errpage_fix (code : N) : bytes := ERRPAGE_COLON ++ dec code.
+Definition errpage_of (rd : bytes -> option bytes) (code : N) : bytes :=
+  match rd (ERRORS_SLASH ++ dec code ++ B ".html") with
+  | Some c => c
+  | None => errpage_fix code
+  end.
+Fixpoint resolve_template (rd : bytes -> option bytes) (files : list bytes) (name : bytes) : outcome (option bytes) :=
+  match files with
+  | [] => Ok None
+  | f :: rest =>
+      match rd (TEMPLATES_SLASH ++ f) with
+      | Some content =>
+          obind (Templates.extract_templates false content) (fun m =>
+          match Templates.t_get name m with
+          | Some t => Ok (Some t)
+          | None => resolve_template rd rest name
+          end)
+      | None => resolve_template rd rest name
+      end
+  end.
+Definition TMPL_PANIC : bytes := Eval vm_compute in B "<<template engine panicked>>".
+Definition tmpl_of (rd : bytes -> option bytes) (args : list bytes) (body : bytes) : bytes :=
+  match Templates.handle_template (resolve_template rd (rev args)) body with
+  | Ok b => b
+  | _ => TMPL_PANIC       (* never: Proofs/TemplatesProofs.v *)
+  end.
+Definition fs_of_tree (tree : PathSan.node) : bytes -> option bytes := fs_of (tree_read tree).
+Definition errpage_of_tree (tree : PathSan.node) : N -> bytes := errpage_of (tree_read tree).
+Definition tmpl_of_tree (tree : PathSan.node) : list bytes -> bytes -> bytes := tmpl_of (tree_read tree).
+
+(** ---------------------------------------------------------------------------
+    The file cache ([host.file_cache], src/read.rs): a map from the path text to the content or to "no such
+    file" (negative entry).  [read::file] (public files) consults it and never fills it; [read::file_cached]
+    (error pages, template files) consults it and stores what it read from the disk.  What the server holds for a
+    path is the entry if there is one — also a stale or a negative one — and the disk otherwise. *)
+Definition fcache := list (bytes * option bytes).
+Fixpoint fc_find (p : bytes) (fc : fcache) : option (option bytes) :=
+  match fc with
+  | [] => None
+  | (q, v) :: r => if beq p q then Some v else fc_find p r
+  end.
+Definition fc_view (on : bool) (disk : bytes -> option bytes) (fc : fcache) (p : bytes) : option bytes :=
+  if on then match fc_find p fc with Some v => v | None => disk p end else disk p.
+Definition fc_fill1 (on : bool) (disk : bytes -> option bytes) (fc : fcache) (p : bytes) : fcache :=
+  if on then match fc_find p fc with Some _ => fc | None => (p, disk p) :: fc end else fc.
+Definition fc_fill (on : bool) (disk : bytes -> option bytes) (fc : fcache) (ps : list bytes) : fcache :=
+  fold_left (fc_fill1 on disk) ps fc.
+
+(** the server with its file cache as state: every read sees [fc_view] of the current cache; [reads] names the paths
+    a request reads through [file_cached] (ANY choice: the theorem [file_cache_transparent] does not depend on it).
+    The 406 page of the negotiation is read in [handle_cache] itself. *)
+Definition compute_gf (fix_ext fix_lock fix_errline cors on : bool) (disk : bytes -> option bytes)
+    (reads : request -> option (bytes * option bytes) -> bool -> list bytes)
+    (fc : fcache) (r : request) (ov : option (bytes * option bytes)) (ok : bool) : fatx * fcache * list bytes :=
+  let rd := fc_view on disk fc in
+  (plain (layer_b fix_ext fix_lock fix_errline cors (fs_of rd) (errpage_of rd) (tmpl_of rd) r ov ok),
+   fc_fill on disk fc (reads r ov ok), []).
+Definition run_gf (fix_ext fix_lock fix_errline cors on : bool) (disk : bytes -> option bytes)
+    (reads : request -> option (bytes * option bytes) -> bool -> list bytes) (fc0 : fcache)
+    (cache_on ims_on fix_ovkey fix_clear fix_svary fix_qmkey fix_ims : bool) (sfilter : N -> bool)
+    (parse_ims : bytes -> option Z) (prime : request -> request)
+    (override : request -> option (bytes * option bytes))
+    (refuses : request -> fatx -> bool) (vary_tuple : request -> option (bytes * option bytes) -> tuple)
+    (vary_header : request -> option (bytes * option bytes) -> fatx -> list (bytes * bytes))
+    (clear_alias : request -> option request)
+    (c : cachex) (now : N) (ops : list opx) : list obsx :=
+  runX fcache (compute_gf fix_ext fix_lock fix_errline cors on disk reads) cache_on ims_on true fix_ovkey fix_clear fix_svary
+       fix_qmkey fix_ims sfilter parse_ims sanitize_ok_g prime override
+       (negotiate_g (errpage_of (fc_view on disk fc0)) refuses) vary_tuple vary_header clear_alias (c, fc0) now ops.
 
 Record gconfig := mkG {
   g_cache : bool; g_default_ext : bool; g_ims : bool; g_files : list (bytes * bytes);
-  g_vary : list (bytes * list vrule); g_report : list bytes; g_phase : N }.
+  g_vary : list (bytes * list vrule); g_report : list bytes; g_phase : N;
+  g_fcache : bool; g_fseed : fcache }.     (* file cache on?; what it holds before the first request *)
 
+Definition d_fseed (x : xval) : option (bytes * option bytes) :=
+  match x with
+  | XL [XB p; XL []] => Some (p, None)
+  | XL [XB p; XL [XB c]] => Some (p, Some c)
+  | _ => None
+  end.
 Definition d_gconfig (x : xval) : option gconfig :=
   match x with
   | XL l =>
       let fl := match kv_get (B "files") l with Some v => d_list d_pair_bb v | None => Some [] end in
       let vr := match kv_get (B "vary") l with Some v => d_list d_varyrule v | None => Some [] end in
       let rp := match kv_get (B "report") l with Some v => d_list d_B v | None => Some [] end in
+      let sd := match kv_get (B "fcache_seed") l with Some v => d_list d_fseed v | None => Some [] end in
       let ph := match kv_get (B "phase") l with Some (XN n) => n | _ => 500 end in
-      match fl, vr, rp with
-      | Some fl', Some vr', Some rp' =>
-          Some (mkG (kv_flag (B "cache") l true) (kv_flag (B "default_ext") l false) (negb (kv_flag (B "disable_ims") l false)) fl' vr' rp' ph)
-      | _, _, _ => None
+      match fl, vr, rp, sd with
+      | Some fl', Some vr', Some rp', Some sd' =>
+          Some (mkG (kv_flag (B "cache") l true) (kv_flag (B "default_ext") l false) (negb (kv_flag (B "disable_ims") l false)) fl' vr' rp' ph
+                    (kv_flag (B "fcache") l true) sd')
+      | _, _, _, _ => None
       end
+  | _ => None
+  end.
+(** what the server holds for a path of the scenario: the seeded file-cache entry (file cache on), else the fixture tree.
+    ([MokaCache::insert] replaces: of several seeds for one path the last one counts.) *)
+Definition g_held (g : gconfig) : bytes -> option bytes :=
+  fc_view (g_fcache g) (tree_read (tree_of (g_files g))) (rev (g_fseed g)).
+
+(** the client address of an operation: [(N n)] (n < 65536), [(L (N 4) (N v))], [(L (N 6) (N v))] *)
+Definition d_addr (x : xval) : option N :=
+  match x with
+  | XN n => if n <? V4_BASE then Some n else None
+  | XL [XN 4; XN v] => if v <? 4294967296 then Some (V4_BASE + v) else None
+  | XL [XN 6; XN v] => if v <? 2 ^ 128 then Some (V6_BASE + v) else None
+  | _ => None
+  end.
+Definition d_gop (x : xval) : option opx :=
+  match x with
+  | XL [XN 0; a; XB m; XB t; hs; XB _] =>
+      match d_addr a, d_list d_pair_bb hs with
+      | Some addr, Some h => Some (XReq (d_request addr m t h))
+      | _, _ => None
+      end
+  | XL [XN 1; XB t] => Some (XClearPage (d_request 0 (B "GET") t []))
+  | XL [XN 2] => Some XClearAll
+  | XL [XN 3; XN ms] => Some (XWait ms)
   | _ => None
   end.
 
 Definition g_prime (g : gconfig) : request -> request :=
   if g_default_ext g then uri_redirect else (fun r => r).
 
-Definition run_gcfg (fix_ext fix_lock : bool) (g : gconfig) (ops : list op) : list obs :=
-  run_g fix_ext fix_lock (fs_of_tree (tree_of (g_files g))) errpage_fix (g_cache g) (g_ims g) parse_ims_fix
-        (g_prime g) (fun _ _ => false) (vary_tuple_fix (g_vary g)) (vary_header_fix (g_vary g)) [] (g_phase g) ops.
+Definition run_gcfg (fix_ext fix_lock fix_errline : bool) (g : gconfig) (ops : list opx) : list obsx :=
+  let held := g_held g in
+  run_g fix_ext fix_lock fix_errline (g_default_ext g) (fs_of held) (errpage_of held) (tmpl_of held)
+        (g_cache g) (g_ims g) true true true true true status_filter_drop parse_ims_fix
+        (g_prime g) (override_x (g_default_ext g) None) (fun _ _ => false)
+        (vary_tuple_x true (g_vary g)) (vary_header_x true (g_vary g)) clear_alias_fix [] (g_phase g) ops.
 
-Definition obs_panicked (o : obs) : bool :=
-  match o with ObReply rp _ => rp_status rp =? 0 | _ => false end.
+Definition obs_panicked (o : obsx) : bool :=
+  match o with XbReply rp _ => rx_status rp =? 0 | _ => false end.
 
-Definition run_guards_with (fix_ext fix_lock : bool) (x : xval) : xval :=
+Definition x_gobs (report : list bytes) (o : obsx) : xval :=
+  match o with
+  | XbReply rp lg =>
+      XL [XN (rx_status rp); report_headers_x report rp; XB (rx_body rp); XN 1; XB (rx_identity rp); XL (map XB lg)]
+  | XbCleared f c => XL [x_bool f; x_bool c]
+  | XbNone => XL []
+  end.
+
+Definition run_guards_with (fix_ext fix_lock fix_errline : bool) (x : xval) : xval :=
   match x with
   | XL [c; XL ops] =>
-      match d_gconfig c, d_all d_op ops with
+      match d_gconfig c, d_all d_gop ops with
       | Some g, Some ops' =>
-          let obs := run_gcfg fix_ext fix_lock g ops' in
+          let obs := run_gcfg fix_ext fix_lock fix_errline g ops' in
           if existsb obs_panicked obs then XL [XN 2]
-          else XL (map (x_obs (g_report g)) obs)
+          else XL (map (x_gobs (g_report g)) obs)
       | _, _ => bad_input
       end
   | _ => bad_input
   end.
-Definition run_guards := run_guards_with true true.
-Definition run_guards_v0 := run_guards_with false false.
+Definition run_guards := run_guards_with true true true.
+Definition run_guards_v0 := run_guards_with false false false.
 
 (** spec component: per operation, may the reply carry content of a guarded file?  (L (N 0/1) (B t))
     for a request: [permitted_b] and the decoded path; (L) for other operations *)
 Definition run_guards_spec (x : xval) : xval :=
   match x with
   | XL [c; XL ops] =>
-      match d_gconfig c, d_all d_op ops with
+      match d_gconfig c, d_all d_gop ops with
       | Some g, Some ops' =>
-          let fs := fs_of_tree (tree_of (g_files g)) in
+          let fs := fs_of (g_held g) in
           XL (map (fun o => match o with
-                            | OReq r0 => let r := g_prime g r0 in
+                            | XReq r0 => let r := g_prime g r0 in
                                         XL [x_bool (permitted_b fs r);
                                             XB (match served_file (rq_path r) with Ok (Some t) => t | _ => [] end)]
                             | _ => XL []
@@ -500,5 +759,16 @@ Definition run_guards_spec (x : xval) : xval :=
   | _ => bad_input
   end.
 
+(** component ["guards.wire"] (harness/src/c17.rs): the list of violations the harness finds on the wire
+    (a marker of a guarded file in an answer that may not carry it; an answer for a guarded file that
+    differs from the answer for a path that does not exist) is empty *)
+Definition run_guards_wire (x : xval) : xval :=
+  match x with
+  | XL [c; XL _] => match d_gconfig c with Some _ => XL [] | None => bad_input end
+  | _ => bad_input
+  end.
+
+(** component ["guards.push"]: the same for what the server PUSHES over HTTP/2 for a page that links guarded files *)
 Definition guards_table : list (bytes * (xval -> xval)) :=
-  [ (B "guards.run", run_guards); (B "guards.run_v0", run_guards_v0); (B "guards.spec", run_guards_spec) ].
+  [ (B "guards.run", run_guards); (B "guards.run_v0", run_guards_v0); (B "guards.spec", run_guards_spec);
+    (B "guards.wire", run_guards_wire); (B "guards.push", run_guards_wire) ].
